@@ -77,8 +77,8 @@ CLAIMED = {
         note='Trusted: pickle; audit-hook abstraction; logging capture; zipfile as read-back oracle. D29 repaired in /repo.',
         ref='DESIGN.md section 4 C17'),
     "C18": dict(
-        technique='Coq proof of sequencing + induction over one-hole contexts + exhaustive-position correspondence',
-        text='coq/props/C18.v (13 theorems): a failing serialisation means the sink sees no operation at all (existing path, new path, open file object), dumps never returns a prefix, and failure is independent of the position/depth of the unsupported element (induction over one-hole contexts with the leaf serialisers as oracle); and over the REAL dump model (CodecDump.get_state, all value kinds): a value that can never be serialised (unsupported type, raising __getstate__/__reduce__, property) sitting at ANY serialised position at any depth (list/tuple/set items, dict and defaultdict values, default factories, masked data/mask, RNG states, partial slots, operator attrs, bound-method owners, object state / reduce arguments) makes dumps_model raise, and then no target receives anything under any compression (C18_codec_inside_raises, C18_codec_unpersistable_touches_nothing). That the real get_state has that strict shape is correspondence: every node position of generated structures x rotating bad-element kinds x 4 sinks under the audit hook.',
+        technique='Coq proof over the call graph translated from the source (serialise-before-touching) + Coq proof of sequencing + induction over one-hole contexts and over the real dump model + exhaustive-position correspondence',
+        text='coq/props/C18.v (16 theorems): TRANSLATED SOURCE (harness/callgraph.py, re-run every run, fail-closed): dump() is split at its call of _save; everything reachable from the part up to and including the serialisation uses no file-system primitive, only writers that stay in memory (np.save / save_npz into a local io.BytesIO(), writestr into the zip _save builds over a local io.BytesIO() -- argument shapes checked by the translator) and reflection (C18_static_serialise_before_touching; not blind: the part after it opens and writes the destination). MODEL: a failing serialisation means the sink sees no operation at all (existing path, new path, open file object), dumps never returns a prefix, and failure is independent of the position/depth of the unsupported element (induction over one-hole contexts with the leaf serialisers as oracle); and over the REAL dump model (CodecDump.get_state, all value kinds): a value that can never be serialised (unsupported type, raising __getstate__/__reduce__, property) sitting at ANY serialised position at any depth (list/tuple/set items, dict and defaultdict values, default factories, masked data/mask, RNG states, partial slots, operator attrs, bound-method owners, object state / reduce arguments) makes dumps_model raise, and then no target receives anything under any compression (C18_codec_inside_raises, C18_codec_unpersistable_touches_nothing). That the real get_state has that strict shape is correspondence: every node position of generated structures x rotating bad-element kinds x 4 sinks under the audit hook.',
         note='Trusted: audit-hook observation of the destination; the serializer itself is an oracle here (modelled under C04/C05).',
         ref='DESIGN.md section 4 C18'),
     "C13": dict(
